@@ -77,15 +77,45 @@ impl Paths {
     { unimplemented!() }
 }
 
+/// Assumption PATHS-LAYOUT (crates/core/src/paths.rs:85-125 `new_with_prefix`, 331-515 the accessors;
+/// crates/core/src/constants.rs, read).  For a non-global `Paths` with documents directory D, prefix L
+/// ("local" / "remote") and account id text A ("0x" + 40 hex digits):
+///   identity_vault   = D/identity/A.vault          identity_events = D/identity/A.events
+///   account_events   = D/L/A/account.events        device_file     = D/L/A/device.vault
+///   device_events    = D/L/A/devices.events        file_events     = D/L/A/files.events
+///   preferences_file = D/L/A/preferences.json      remote_origins  = D/L/A/servers.json
+///   vault_path(id)   = D/L/A/vaults/<id>.vault     event_log_path(id) = D/L/A/vaults/<id>.events
+/// (<id> = hyphenated lower-case hex of the Uuid: injective).  These are pairwise different paths, and
+/// `vault_path` / `event_log_path` are injective in the folder id.  Stated as one classification
+/// function: every one of these paths has exactly one slot.
+pub enum PathSlot { IdentityVault, IdentityEvents, AccountEvents, DeviceFile, DeviceEvents, FileEvents, Preferences, Remotes, FolderVault(VaultId), FolderLog(VaultId), Other }
+pub uninterp spec fn slot_of(p: &Paths, q: Seq<char>) -> PathSlot;
+pub axiom fn axiom_paths_layout(p: &Paths)
+    requires !p.is_global_spec(),
+    ensures
+        slot_of(p, p.identity_vault_spec()) == PathSlot::IdentityVault,
+        slot_of(p, p.identity_events_spec()) == PathSlot::IdentityEvents,
+        slot_of(p, p.account_events_spec()) == PathSlot::AccountEvents,
+        slot_of(p, p.device_file_spec()) == PathSlot::DeviceFile,
+        slot_of(p, p.device_events_spec()) == PathSlot::DeviceEvents,
+        slot_of(p, p.file_events_spec()) == PathSlot::FileEvents,
+        slot_of(p, p.preferences_file_spec()) == PathSlot::Preferences,
+        slot_of(p, p.remote_origins_spec()) == PathSlot::Remotes,
+        forall|id: VaultId| slot_of(p, #[trigger] p.vault_path_spec(id)) == PathSlot::FolderVault(id),
+        forall|id: VaultId| slot_of(p, #[trigger] p.event_log_path_spec(id)) == PathSlot::FolderLog(id);
+
 /// the derived `PartialEq` of AccountId (crates/core/src/account.rs:10): the 20 bytes
 impl EqStd for &AccountId { open spec fn eq_std_spec(self, other: &AccountId) -> bool { self.0@ == other.0@ } }
 #[verifier::external]
 impl PartialEq for AccountId { fn eq(&self, other: &Self) -> bool { self.0 == other.0 } }
 
 impl Summary {
-    /// crates/vault/src/vault.rs `Summary::name`
+    /// crates/vault/src/vault.rs `Summary::name` (= `&self.name`)
+    pub uninterp spec fn name_spec(&self) -> Seq<char>;
     #[verifier::external_body]
-    pub fn name(&self) -> (r: &str) { unimplemented!() }
+    pub fn name(&self) -> (r: &str)
+        ensures r@ == self.name_spec(),
+    { unimplemented!() }
 }
 impl Vault {
     /// crates/vault/src/vault.rs `Vault::id` (= `self.header.summary.id`)
@@ -115,36 +145,64 @@ pub enum EventLogType { Identity, Account, Device, Files, Folder(VaultId) }
 
 /// sos_reducers::FolderReducer::split (crates/reducers/src/folder.rs; under contract in unit fold, C02):
 /// a pure function of the vault
+/// crates/reducers/src/folder.rs:47-61 (read): `events = [CreateVault(header-only vault)] ++ [CreateSecret(id, entry)
+/// for (id, entry) in vault]` — a function of the vault (`split_spec`, None: `into_event` fails), never empty.
 pub struct FolderReducer { pub _p: () }
 impl FolderReducer {
+    pub uninterp spec fn split_spec(vault: Vault) -> Option<Seq<WriteEvent>>;
     #[verifier::external_body]
     pub fn split<E>(vault: Vault) -> (r: core::result::Result<(Vault, Vec<WriteEvent>), E>)
+        ensures r matches Ok(p) ==> Self::split_spec(vault) == Some(p.1@) && p.1@.len() > 0,
     { unimplemented!() }
 }
 
-/// sos_filesystem::FolderEventLog<E> (crates/filesystem/src/event_log.rs; under contract in unit log, C06):
-/// `new_folder(path, ..)` creates / opens the log file at `path`, `apply` appends records to THAT file.
-/// Assumed here: both touch no regular file other than the log's own path (frame only).
+/// sos_filesystem::FolderEventLog<E> (crates/filesystem/src/event_log.rs, read; under contract in unit log, C06).
+/// `new_folder(path, ..)` (event_log.rs:708-736 + `initialize_event_log` 625-649): opens `path` with
+///   create + write, no truncate; if the file is then EMPTY writes FOLDER_EVENT_LOG_IDENTITY (no version
+///   bytes); checks the identity bytes; the handle starts with an EMPTY commit tree (`tree: Default::default()`,
+///   the file is not scanned).  So after Ok the file holds `log_initialized(before, path)`.
+/// `apply(events)` (event_log.rs:304-376): no events: Ok, nothing happens.  Otherwise every event is encoded to
+///   a record (`EventRecord::encode_event`: time = the clock, commit = hash of the encoded event), the records
+///   are chained from the handle's last commit (`tip_spec`, None for a fresh handle) and APPENDED to the file
+///   (OpenOptions append, no create).  The clock makes the bytes a relation, not a function:
+///   `log_appended(tip, before, events, after)` = "`after` is `before` followed by the record encodings of
+///   `events` chained from `tip`, with some timestamps".  Err: only the log's own path may have changed.
+/// Both touch no regular file other than the log's own path and no directory.
+pub type LogTip = Option<Seq<u8>>;
+pub uninterp spec fn folder_log_identity() -> Seq<u8>;
+pub uninterp spec fn log_appended(tip: LogTip, before: Seq<u8>, events: Seq<WriteEvent>, after: Seq<u8>) -> bool;
+/// the content of the log file at `p` after `initialize_event_log`
+pub open spec fn log_initialized(f: FsV, p: Seq<char>) -> Seq<u8> {
+    if f.files.contains_key(p) && f.files[p].len() > 0 { f.files[p] } else { folder_log_identity() }
+}
 #[verifier::external_body]
 #[verifier::reject_recursive_types(E)]
 pub struct FolderEventLog<E> { _e: core::marker::PhantomData<E> }
 impl<E> FolderEventLog<E> {
     pub uninterp spec fn path_spec(&self) -> Seq<char>;
+    /// last commit of the handle's in-memory tree
+    pub uninterp spec fn tip_spec(&self) -> LogTip;
     #[verifier::external_body]
     pub fn new_folder(fs: &mut Fs, path: PathBuf, account_id: AccountId, log_type: EventLogType) -> (r: core::result::Result<Self, E>)
         ensures
             files_same_except(old(fs)@, final(fs)@, path@), final(fs)@.dirs == old(fs)@.dirs,
-            r matches Ok(l) ==> l.path_spec() == path@,
+            r matches Ok(l) ==> l.path_spec() == path@ && l.tip_spec() is None
+                && final(fs)@.files.contains_key(path@) && final(fs)@.files[path@] == log_initialized(old(fs)@, path@),
     { unimplemented!() }
     #[verifier::external_body]
     pub fn apply(&mut self, fs: &mut Fs, events: &[WriteEvent]) -> (r: core::result::Result<(), E>)
         ensures
             files_same_except(old(fs)@, final(fs)@, old(self).path_spec()), final(fs)@.dirs == old(fs)@.dirs,
             final(self).path_spec() == old(self).path_spec(),
+            r is Ok && events@.len() == 0 ==> final(fs)@ == old(fs)@ && final(self).tip_spec() == old(self).tip_spec(),
+            r is Ok && events@.len() > 0 ==> old(fs)@.files.contains_key(old(self).path_spec()) && final(fs)@.files.contains_key(old(self).path_spec())
+                && log_appended(old(self).tip_spec(), old(fs)@.files[old(self).path_spec()], events@, final(fs)@.files[old(self).path_spec()]),
     { unimplemented!() }
 }
-/// sos_filesystem::VaultFileWriter<E> (crates/filesystem/src/vault_writer.rs; under contract in unit
-/// vaultfile): `set_vault_name` rewrites the header of the vault file it was created for.  Frame only.
+/// sos_filesystem::VaultFileWriter<E> (crates/filesystem/src/vault_writer.rs, read; under contract in unit
+/// vaultfile): `set_vault_name` (vault_writer.rs:214-223) checks the identity bytes, reads the header of the
+/// vault file it was created for, sets the name and writes the header back in front of the unchanged content:
+/// the new file is a function (`vault_renamed`) of the old file and the name.  Err: only that path may change.
 #[verifier::external_body]
 #[verifier::reject_recursive_types(E)]
 pub struct VaultFileWriter<E> { _e: core::marker::PhantomData<E> }
@@ -159,5 +217,8 @@ impl<E> VaultFileWriter<E> {
         ensures
             files_same_except(old(fs)@, final(fs)@, old(self).path_spec()), final(fs)@.dirs == old(fs)@.dirs,
             final(self).path_spec() == old(self).path_spec(),
+            r is Ok ==> old(fs)@.files.contains_key(old(self).path_spec()) && final(fs)@.files.contains_key(old(self).path_spec())
+                && final(fs)@.files[old(self).path_spec()] == vault_renamed(old(fs)@.files[old(self).path_spec()], name@),
     { unimplemented!() }
 }
+pub uninterp spec fn vault_renamed(before: Seq<u8>, name: Seq<char>) -> Seq<u8>;
